@@ -64,6 +64,9 @@ CASES = [
     (('visit_CallStatement',), "call f_out2(i, a(i))", 'CallStatement', {'i'}, {'i', 'a'}),
     (('visit_CallStatement',), "call unknown_routine(x, a(i))", 'CallStatement', {'x', 'a', 'i'}, {'x', 'a'}),
     (('visit_InternalNode',), "x = y\n  z = x", 'BODY', {'y'}, {'x', 'z'}),
+    (('visit_Associate',), "associate (PFLD => a, psrc => b)\n pfld(1) = PSRC(n)\n end associate", 'Associate',
+     {'b', 'n'}, {'a'}),
+    (('visit_Associate',), "associate (q => x)\n y = q\n end associate", 'Associate', {'x'}, {'y'}),
     (('visit_ConditionalAssignment',), "x = y", 'BODY', {'y'}, {'x'}),
     (('loop_carried_dependencies',), "do i = 1, n\n y = x\n x = a(i)\n end do", 'LCD', {'x'}, set()),
     (('loop_carried_dependencies',), "do i = 1, n\n x = x + a(i)\n end do", 'LCD', {'x'}, set()),
